@@ -1,5 +1,5 @@
 (* C13 — Event hooks fire exactly at their registered occasions, times and markets. *)
-Require Import Pams.Prelude Pams.Match Pams.Market Pams.Sim Pams.SimLift Pams.SimInv Pams.SimProps Pams.SimHooks.
+Require Import Pams.Prelude Pams.Match Pams.Market Pams.Sim Pams.SimLift Pams.SimInv Pams.SimProps Pams.SimHooks Pams.SimMarks Pams.SimStepHooks.
 From Coq Require Import Permutation.
 Open Scope Z_scope.
 
@@ -71,6 +71,42 @@ Example C13_run_nonvacuous :
    (-2, 13, false); (-2, 3, false); (5, 3, false);
    (5, 2, true); (-1, 0, false); (-2, 2, false)].
 Proof. exact hooks_example. Qed.
+
+(* ---- the whole run (session and market-step hooks) ---- *)
+(* [toks] keeps, in order, the begin / end records of the simulation, its sessions and market steps and the calls of user-written
+   events' session and market-step hooks; [sessions_toks H K Sk ids 0 sessions] computes them from the configuration alone: per
+   session its before-hooks (time = session start), the begin record, per step t and market the before-step hooks accepted by the
+   hook's class / instance filter (time t) and the step-begin record, then - after the order phase, which makes no such call - per
+   market the step-end record and the after-step hooks, finally the after-session hooks (time = start + steps - 1) and the end
+   record.  EXACTLY ONCE PER MATCHING OCCURRENCE: for every configuration with distinct market ids and non-negative session
+   lengths, every hook table, tape, agent behaviour and fundamental path, whenever the run ends without exception. *)
+Theorem C13_session_and_step_hooks_fire_exactly_at_their_occurrences : forall c tape batches funds,
+  NoDup (map mc_id (c_markets c)) -> Forall (fun sc => 0 <= sc_steps sc) (c_sessions c) ->
+  let s0 := init_sim c tape batches funds in
+  let s := run c tape batches funds in
+  ok s = true ->
+  toks (events_of s) =
+    [TMark MSimB] ++ sessions_toks (s_hooks s0) (kinds s0) (SimClock.skels s0) (map mc_id (c_markets c)) 0 (mk_sessions (c_sessions c) 0) ++ [TMark MSimE].
+Proof. exact run_toks. Qed.
+Print Assumptions C13_session_and_step_hooks_fire_exactly_at_their_occurrences.
+
+Example C13_step_hooks_nonvacuous :
+  let c := mkCfg [mkMC 0 (1#1) (100#1) None 1; mkMC 1 (1#1) (100#1) (Some [0]) 1] []
+                 [mkSC 3 2 false false 1 1 (0#1)]
+                 [mkEC 5 3 true (KProbe [mkHS HSession true None None false; mkHS HSession false (Some [0]) None false;
+                                         mkHS HMarket true (Some [1]) None false; mkHS HMarket false None None true;
+                                         mkHS HMarket true None (Some 1) false])] in
+  let funds := [(0, 0, 100#1); (0, 1, 100#1); (0, 2, 100#1)] in
+  let s := run c [] [] funds in
+  ok s = true /\
+  toks (events_of s) =
+  [TMark MSimB; TProbe 5 HSession true (-1); TMark (MSessB 3);
+   TMark (MStep 9 0); TProbe 5 HMarket true 1; TMark (MStep 9 1);
+   TMark (MStep 10 0); TMark (MStep 10 1); TProbe 5 HMarket false 1;
+   TProbe 5 HMarket true 0; TMark (MStep 9 0); TProbe 5 HMarket true 1; TProbe 5 HMarket true 1; TMark (MStep 9 1);
+   TMark (MStep 10 0); TMark (MStep 10 1); TProbe 5 HMarket false 1;
+   TMark (MSessE 3); TMark MSimE].
+Proof. exact step_hooks_example. Qed.
 
 Example C13_nonvacuous :
   let h1 := mkH 0 HMarket true (Some [1; 1; 2]) None false in
